@@ -42,6 +42,9 @@ func main() {
 		props.HelperFingerprints(os.Args[3], p, d)
 		return
 	}
+	if len(os.Args) == 3 && os.Args[1] == "replay" {
+		os.Exit(props.ReplayFile(os.Args[2]))
+	}
 	if len(os.Args) < 3 || os.Args[1] != "check" {
 		fmt.Fprintln(os.Stderr, "usage: tibcmc check <Cnn> [quick|thorough]")
 		os.Exit(2)
